@@ -25,6 +25,7 @@ def step (s : DState) (line : String) : DState × String :=
   match toks.head? with
   | some ("k1", _) => (s, k1 toks)
   | some ("k2", _) => (s, k2 toks)
+  | some ("k2srv", _) => (s, k2srv toks)
   | some ("k3", _) => (s, k3 toks)
   | some ("kparse", _) => (s, kparse toks)
   | some ("kvstr", _) => (s, kvstr toks)
@@ -35,6 +36,7 @@ def step (s : DState) (line : String) : DState × String :=
   | some ("kmuxfid", _) => (s, kmuxfid toks)
   | some ("kstale", _) => (s, kstale toks)
   | some ("kalias", _) => (s, kalias toks)
+  | some ("kearly", _) => (s, kearly toks)
   | some ("kchunk", _) => (s, kchunk toks)
   | some ("kneg", _) => (s, kneg toks)
   | some ("klfs", _) => (s, klfs toks)
@@ -44,6 +46,8 @@ def step (s : DState) (line : String) : DState × String :=
   | some ("kmode", _) => (s, kmode toks)
   | some ("kfromos", _) => (s, kfromos toks)
   | some ("kmapc", _) => (s, kmapc toks)
+  | some ("kmapbig", _) => (s, kmapbig toks)
+  | some ("kltype", _) => (s, kltype toks)
   | some ("k19", _) => (s, k19 toks)
   | some ("kcs", _) => (s, kcs toks)
   | some ("k7pair", _) => (s, k7pair toks)
